@@ -333,6 +333,46 @@ func viewAck(v *vw, p ackLike, ups mq.UserProperties) {
 
 func viewLine(p mq.ControlPacket) string { return kindOf(p) + " " + viewOf(p) }
 
+func trunc(s string, n int) string {
+	if len(s) > n {
+		return s[:n] + "…"
+	}
+	return s
+}
+
+// one ReadPacket through a reader of the standard library, rendered like the RD op renders it
+func readThrough(kind string, d []byte, _ bool) (out string) {
+	defer func() {
+		if rec := recover(); rec != nil {
+			out = "panic c=0"
+		}
+	}()
+	var r io.Reader
+	left := func() int { return 0 }
+	switch kind {
+	case "bytes.Reader":
+		br := bytes.NewReader(append([]byte(nil), d...))
+		r, left = br, br.Len
+	case "bytes.Buffer":
+		bb := bytes.NewBuffer(append([]byte(nil), d...))
+		r, left = bb, bb.Len
+	case "strings.Reader":
+		sr := strings.NewReader(string(d))
+		r, left = sr, sr.Len
+	default:
+		r = bufio.NewReaderSize(bytes.NewReader(append([]byte(nil), d...)), 16)
+	}
+	p, err := mq.ReadPacket(r)
+	c := len(d) - left()
+	switch {
+	case p != nil && err == nil:
+		return fmt.Sprintf("pkt %s c=%d", viewLine(p), c)
+	case p == nil && err != nil:
+		return fmt.Sprintf("err eof=%s ueof=%s fail=0 c=%d", b01(errors.Is(err, io.EOF)), b01(errors.Is(err, io.ErrUnexpectedEOF)), c)
+	}
+	return fmt.Sprintf("FAIL xor p=%v err=%v c=%d", p != nil, err != nil, c)
+}
+
 // bytes allocated so far (C05: "bytes allocated during the call")
 func allocated() uint64 {
 	var m runtime.MemStats
@@ -789,6 +829,23 @@ func (e *executor) exec(line string) (res string) {
 			outs = append(outs, out)
 			if stop {
 				break
+			}
+		}
+		if calls == 1 && schedS == "-" && !custom && len(outs) == 1 && !strings.HasPrefix(outs[0], "FAIL") && outs[0] != "panic" {
+			// "through any reader": the same bytes through the standard library's readers, which offer more than Read
+			// (io.ByteReader, io.WriterTo, io.Seeker, ReadAt, a look-ahead buffer) — what ReadPacket returns and how far it
+			// reads must not depend on what else the reader can do
+			want := outs[0]
+			for _, kind := range []string{"bytes.Reader", "bytes.Buffer", "bufio.Reader", "strings.Reader"} {
+				got := readThrough(kind, d, ew == "1")
+				w := want
+				if kind == "bufio.Reader" { // reads ahead: the count is not observable
+					w = w[:strings.LastIndex(w, " c=")]
+					got = got[:strings.LastIndex(got, " c=")]
+				}
+				if got != w {
+					return fmt.Sprintf("rd FAIL reader=%s gives `%s` where a plain io.Reader gives `%s`", kind, trunc(got, 160), trunc(want, 160))
+				}
 			}
 		}
 		return "rd " + strings.Join(outs, " || ")
